@@ -70,9 +70,11 @@ PROPS = {
     ),
     "C03": dict(
         level="proof",
+        extra_lean_targets=["LdpcV.Props.C03Tree"],
+        extra_prop_files=["LdpcV/Props/C03Tree.lean"],
         trusted_base=[KERNEL, CORR,
                       "the textbook reference lean/LdpcV/Spec/BPRef.lean (stateless flooding / layered schedules with name-based message lookup) is the "
-                      "specification; the contract `WellBehaved` / `WellBehavedLayer` (lean/LdpcV/Spec/DecoderSpec.lean) is what 'any arithmetic' means: rules emit "
+                      "specification; the posterior of the exactness clause is the brute-force marginal over all codewords (lean/LdpcV/Model/ArithIdeal.lean: mass, posterior); the contract `WellBehaved` / `WellBehavedLayer` (lean/LdpcV/Spec/DecoderSpec.lean) is what 'any arithmetic' means: rules emit "
                       "exactly one message per incoming message, addressed to its source (any order) — proved for the 16 8-bit arithmetics (C05.i8_wellBehaved)",
                       "checker-supplied arithmetics IntMinSum and Affine exist twice (harness/src/arith_test.rs, lean/LdpcV/Model/ArithTest.lean); their agreement is "
                       "itself checked by the trace comparison"],
@@ -87,8 +89,9 @@ PROPS = {
               "verdict/word/iterations with the ideal schedule's whenever every hard decision on the way is outside the rounding margin (1e-7 f64, 1e-2 f32; "
               "count of non-compared cases in correspondence.not_compared)"),
         assumptions=COMMON_ASSUME,
-        partial=["exactness clause (sum-product on cycle-free matrices equals the true posterior LLRs after diameter iterations): tested numerically as described; "
-                 "the theorem over the reals is in preparation (Props/C03Tree.lean) and is NOT yet part of this check"],
+        partial=["exactness clause: proved over the reals for the ideal sum-product arithmetic plugged into the same textbook schedules (C03Tree: sharp bound 2t >= "
+                 "distance to the farthest bit of the tree, both schedules, hence 'at least diameter iterations'); the floating-point arithmetics Phi/Tanh (rounding, "
+                 "the 1e-30 guard, the tanh clamps) are tied to it numerically only (forest family above), not by a theorem"],
     ),
     "C10": dict(
         level="proof",
